@@ -19,8 +19,10 @@ import (
 // taking the verdict with it. The watchdog turns that into a verdict: when the
 // live heap passes the limit while a goroutine is inside library code, the
 // run is over - the stacks and the inputs in flight are written to a log and
-// reported as a violation; when no goroutine is in library code it is the
-// harness that is broken (exit 2).
+// reported as a violation - provided one library call has been in flight for
+// at least 5 s (a runaway reader or evaluation is a single call that does not
+// return; when all calls in flight are young the memory is the harness's own
+// state space, which is only stopped at three times the limit, exit 2).
 
 // Call slots: every library call the harness makes through its wrappers
 // (Exec, BuildExpr, Unmarshal, the readers, CreateInMemory) occupies a slot
@@ -145,6 +147,7 @@ func snapshot(seen *[nSlots]struct {
 // reports).
 func StartWatchdog(c *Check, id string) {
 	limit := MemLimitBytes()
+	hardLimit := 3 * limit // the harness's own data (no long-running call in flight): a broken check, not a verdict
 	callLimit := CallLimitTicks()
 	sample := []metrics.Sample{{Name: "/memory/classes/heap/objects:bytes"}}
 	var seen [nSlots]struct {
@@ -210,7 +213,22 @@ func StartWatchdog(c *Check, id string) {
 					peakHeap.Store(heap)
 				}
 				if heap >= limit {
-					report("MEMORY", "memory", fmt.Sprintf("the library keeps allocating without returning: the live heap (%d MB) passed the limit of %d MB while library calls were in flight", heap>>20, limit>>20))
+					// attribution: a reader or evaluation that builds without end is ONE call
+					// that has been in flight for a while; when every call in flight is
+					// young, the memory is the harness's own (a large state space)
+					oldest := 0
+					for i := range slots {
+						if slots[i].state.Load() >= 2 && seen[i].ticks > oldest {
+							oldest = seen[i].ticks
+						}
+					}
+					if oldest >= 5 {
+						report("MEMORY", "memory", fmt.Sprintf("the library keeps allocating without returning: the live heap (%d MB) passed the limit of %d MB while a library call had been in flight for %d s", heap>>20, limit>>20, oldest))
+					}
+					if heap >= hardLimit {
+						fmt.Fprintf(os.Stderr, "HARNESS: %s: the check's own data passed %d MB with no long-running library call in flight; the check is broken (not a result)\n", id, hardLimit>>20)
+						os.Exit(2)
+					}
 				}
 			}
 			if sub++; sub%5 != 0 {
